@@ -1,7 +1,10 @@
 import warnings; warnings.simplefilter('ignore')
-import sys; sys.path.insert(0,'/verif')
-from contracts import C12_subcircuits as M
-r=M.standin_subcircuits('thorough',0)
-for f in r['_fails']:
-    if f['failed']=='simulate-raised':
-        print(f['clause'][:200]); print(f['args']['circuit'][:2500])
+import sys, collections; sys.path.insert(0,'/verif')
+from contracts import C04_protocols as M
+import contracts.C04_protocols as mod
+# collect all fails (not unique)
+src=open('/verif/contracts/C04_protocols.py').read()
+fails=[]
+orig=mod.standin_predicates_vs_values
+import types
+r=orig('quick',0)
